@@ -1,5 +1,6 @@
 import MlModel.Lemmas.PipeAggResult
 import MlModel.Lemmas.PipeAggInst
+import MlModel.Lemmas.PipeAggExtra
 /-!
 # C02 — pipeline aggregation and slicing equal a brute-force group-by
 
@@ -30,8 +31,11 @@ part of the model (`Except`) and is tied to the code by the correspondence.
                             on the other slicers
 * `C02_disable_slicing`, `C02_empty_stream`
 * `C02_default_slices`, `C02_within_slices`  what the built-in slice functions select
-* `C02_statM_lawful`, `C02_decCols_rowWise`, `C02_decCols_rowWiseRepl`  the concrete aggregate / decoder of the tie
-                            satisfy the hypotheses (non-vacuity)
+* `C02_run_no_key_error`     started from `create_state`, `update_state` never takes its `KeyError` branch: the stream
+                            fails exactly when, and with the error with which, the first failing batch does
+* `C02_builder_wf`           a pipeline that passes the builder's duplicate checks is well-formed (`P.WF`)
+* `C02_statM_lawful`, `C02_decCols_rowWise`, `C02_decCols_rowWiseRepl`, `C02_decField_rowWise`  the concrete aggregate /
+                            decoders of the tie satisfy the hypotheses (non-vacuity)
 -/
 namespace MlModel.C02
 open MlModel MlModel.Agg MlModel.PipeAgg
@@ -333,6 +337,24 @@ theorem C02_within_slices (w : List (List Int)) (v : List Int) (row : List Val) 
         (v.zip w).all (fun vw => vw.2.contains vw.1) = true :=
   inSlice_withinFn w v row
 
+/-- **No `KeyError`, no hidden failure**: the run over a stream is "plan every batch (select, slice,
+mask, decode — the only steps that can raise), then apply all state updates in order, starting from
+`create_state`"; in particular the `KeyError` branch of `update_state` (transform.py:337-340) is
+unreachable from `iterate()`, and a failing stream fails with the error of its first failing batch. -/
+theorem C02_run_no_key_error (P : Pipeline X S Rv) (bs : List Batch) :
+    run P bs =
+      match mapE (plan P) bs with
+      | .error e => .error e
+      | .ok uss => .ok (uss.flatten.foldl Upd.apply (createState P)) :=
+  run_eq P bs
+
+/-- **The builder establishes well-formedness**: if `add_aggregate` / `add_slice` raised nothing
+(`validate`), every aggregate lists distinct output keys (at least one) and every slicer is named,
+then `P.WF` — the hypothesis of the theorems above. -/
+theorem C02_builder_wf {P : Pipeline X S Rv} (h : P.validate = .ok ())
+    (hout : ∀ a ∈ P.aggs, a.out.Nodup ∧ a.out ≠ []) (hname : ∀ sl ∈ P.slicers, sl.name ≠ []) : P.WF :=
+  WF_of_validate h hout hname
+
 /-! ### non-vacuity: the hypotheses are met by the aggregate and the decoder used in the tie -/
 
 /-- the concrete aggregate of the correspondence (`Stat`, any view) is lawful -/
@@ -346,12 +368,17 @@ theorem C02_decCols_rowWise : RowWise decCols := decCols_rowWise
 theorem C02_decCols_rowWiseRepl (r : Int) :
     RowWiseRepl decCols r (fun row : List Val => row.map (Val.fill r)) := decCols_rowWiseRepl r
 
+/-- the dict-field decoder (a `dict` / `SELF` input whose ndarray leaves are masked by broadcasting,
+tree.py:181-189) is row-wise as well -/
+theorem C02_decField_rowWise (k : String) : RowWise (decField k) := decField_rowWise k
+
 /-! ### non-vacuity: a concrete pipeline (two stacked aggregates, one with slicing disabled; a default,
 a replace-mode and a `within_values` cross slicer; a stream in which slice `a = 2` first occurs in the third
 batch and the second batch is empty) satisfies the hypotheses, runs, and reports what the theorems say
 (tests, by evaluation) -/
 
 example : exPipeline.WF := exPipeline_WF
+example : exPipeline.validate = .ok () := rfl
 example : exAgg ∈ exPipeline.aggs ∧ exAgg.noSlice = false ∧ Lawful exAgg.m Eq ∧ RowWise exAgg.dec :=
   ⟨by simp [exPipeline], rfl, statM_lawful _, decCols_rowWise⟩
 example : (aggResult exPipeline exStream).toOption.isSome = true := by decide
